@@ -15,7 +15,8 @@ EXPLANATION = (
     "class scope's propagated names are empty on every path, so a method body never resolves a free name to a class "
     "attribute.  R01.2: global/nonlocal declarations have binding handlers in the scope visitors (visitor x grammar "
     "coverage).  R01.3: the single-file shortcut of rename returns true only under 'holding scope is a function' and "
-    "'the name is an assigned name'.  Alpha-equivalence of the rewritten program is a runtime fact and is not decided."
+    "'the name is an assigned name'.  R01.4: at a call keyword the offset evaluator never falls through to generic "
+    "scope evaluation.  Alpha-equivalence of the rewritten program is a runtime fact and is not decided."
 )
 ASSUMPTIONS = ["scope classes are the subclasses of rope.base.pyscopes.Scope found in the working tree"]
 
@@ -142,3 +143,20 @@ def check(ctx, res) -> None:
                 + ": a module-level, class-level or defined/imported name is then renamed in its own file only and every other module keeps the old name")
     if n < 1:
         raise AnalysisError("anchor=rename._is_local has no truthy return")
+
+    # ---- R01.4 a call keyword is never evaluated as a name of the calling scope
+    g = idx.need_func("rope.base.evaluate.ScopeNameFinder.get_primary_and_pyname_at")
+    cfg = CFG(g.node)
+    kw_tests = [n for n in cfg.nodes if n.kind == "test" and isinstance(n.ast, ast.Call) and call_name(n.ast) == "is_function_keyword_parameter"]
+    generic = [n for n in cfg.nodes if n.kind == "stmt" and isinstance(n.ast, ast.Return) and isinstance(n.ast.value, ast.Call)
+               and call_name(n.ast.value).startswith("eval_str")]
+    if not kw_tests or not generic:
+        raise AnalysisError("anchor=get_primary_and_pyname_at: keyword-parameter test or generic scope evaluation not found")
+    t = kw_tests[0]
+    tgt = [b for b, l in cfg.succ[t.id] if l == "true"]
+    reach = cfg.reachable(tgt[0], labels={"", "true", "false", "return", "case", "nomatch"}) if tgt else set()
+    leak = [n for n in generic if n.id in reach]
+    res.add("R01.4", "get_primary_and_pyname_at|call-keyword", not leak, g.where,
+            "on the call-keyword path every exit returns inside the branch: a keyword is never evaluated as a scope name" if not leak else
+            "when the offset is a call keyword (f(width=...)) a path falls through to the generic scope evaluation: the keyword resolves to a same-named "
+            "variable of the calling scope, so renaming that variable also rewrites the keyword and the callee receives a different keyword argument")
